@@ -276,6 +276,13 @@ pub fn gen_sg(rng: &mut Rng) -> SG {
     let nt = rng.range(1, 4);
     let tt = rng.range(2, 4);
     let mut terms: Vec<Term> = (0..tt).map(lit_term).collect();
+    if rng.chance(0.15) {
+        // a string recogniser that reads like the *name* of another terminal: `tb: 'ta';` - an inline 'ta' is tb
+        let k = rng.below(tt);
+        let j = (k + 1 + rng.below(tt - 1)) % tt;
+        let other = terms[j].name.clone();
+        terms[k].rec = Rec::Lit(other);
+    }
     for t in &mut terms {
         if rng.chance(0.2) {
             t.meta.prio = Some(*rng.pick(&[5u32, 15]));
